@@ -804,6 +804,28 @@ class _InlineNewHelpers(_InlineMethods):
             if isinstance(st, (ast.FunctionDef, ast.AsyncFunctionDef, ast.ClassDef)):
                 out.append(st)
                 continue
+            # a list comprehension that calls a new helper is written out as the loop it stands for
+            lc = st.value if isinstance(st, (ast.Assign, ast.Return)) and isinstance(getattr(st, 'value', None), ast.ListComp) else None
+            if lc is not None and len(lc.generators) == 1 and not lc.generators[0].is_async and \
+                    (isinstance(st, ast.Return) or (len(st.targets) == 1 and isinstance(st.targets[0], ast.Name))) and \
+                    any(isinstance(c, ast.Call) and self._callee(c, host) is not None for c in ast.walk(lc)):
+                gen = lc.generators[0]
+                self.counter += 1
+                acc = st.targets[0].id if isinstance(st, ast.Assign) else '__collected_%d' % self.counter
+                if not any(isinstance(x, ast.Name) and x.id == acc for x in ast.walk(lc)):
+                    app = ast.Expr(value=ast.Call(func=ast.Attribute(value=ast.Name(id=acc, ctx=ast.Load()), attr='append', ctx=ast.Load()), args=[lc.elt], keywords=[]))
+                    inner = [app]
+                    for cond in reversed(gen.ifs):
+                        inner = [ast.If(test=cond, body=inner, orelse=[])]
+                    loop = ast.For(target=gen.target, iter=gen.iter, body=inner, orelse=[], type_comment=None)
+                    init = ast.Assign(targets=[ast.Name(id=acc, ctx=ast.Store())], value=ast.List(elts=[], ctx=ast.Load()), type_comment=None)
+                    new_stmts = [init, loop] + ([ast.Return(value=ast.Name(id=acc, ctx=ast.Load()))] if isinstance(st, ast.Return) else [])
+                    for x in new_stmts:
+                        ast.copy_location(x, st)
+                        ast.fix_missing_locations(x)
+                    self.touched[id(host)] = host
+                    out += self._block(new_stmts, host, methods)
+                    continue
             # a generator helper that is simply passed on: `yield from helper(...)` / `for t in helper(...): yield t`
             gcall = None
             if isinstance(st, ast.Expr) and isinstance(st.value, ast.YieldFrom) and isinstance(st.value.value, ast.Call):
@@ -868,6 +890,25 @@ class _InlineNewHelpers(_InlineMethods):
                 if whole is not None:
                     out += whole
                     continue
+            for a in pre:
+                # the value keeps the name the helper gave it, when it has one that is free in the host
+                r_ = self._callee(a.value, host)
+                if r_ is not None:
+                    rn = {x.value.id for b in r_[0].body for x in ast.walk(b) if isinstance(x, ast.Return) and isinstance(x.value, ast.Name)}
+                    if id(host) not in self.host_names:
+                        self.host_names[id(host)] = {x.id for x in ast.walk(host) if isinstance(x, ast.Name)} | {y.arg for y in host.args.posonlyargs + host.args.args + host.args.kwonlyargs}
+                    if len(rn) == 1 and next(iter(rn)) not in self.host_names[id(host)]:
+                        better = next(iter(rn))
+                        old_tmp = a.targets[0].id
+                        a.targets[0].id = better
+                        for x in ast.walk(st):
+                            if isinstance(x, ast.Name) and x.id == old_tmp:
+                                x.id = better
+                        for a2 in pre:
+                            for x in ast.walk(a2.value):
+                                if isinstance(x, ast.Name) and x.id == old_tmp:
+                                    x.id = better
+                        self.host_names[id(host)] = self.host_names[id(host)] | {better}
             for a in pre:
                 seq += self._try_expand(a, a.value, a.targets[0], host)
             if direct is not None:
